@@ -23,15 +23,20 @@ import (
 )
 
 type walker struct {
-	fset    *token.FileSet
-	methods map[string]*ast.FuncDecl // all methods with receiver *VM in the package
-	inVMGo  []string                 // names of those declared in vm.go, in source order
-	fields  []string                 // fields of struct VM in declaration order
-	isMap   map[string]bool
-	fieldID map[string]int
-	written map[string]bool // fields written by some method (others are immutable after NewVM)
+	extRefs  []string // unexported methods of the type referenced from outside its methods (exportedOnly mode)
+	fset     *token.FileSet
+	methods  map[string]*ast.FuncDecl // all methods with receiver *VM in the package
+	inVMGo   []string                 // names of those declared in vm.go, in source order
+	fields   []string                 // fields of struct VM in declaration order
+	isMap    map[string]bool
+	fieldID  map[string]int
+	written  map[string]bool // fields written by some method (others are immutable after NewVM)
 	selfSync map[string]bool // fields of a sync./atomic. type: their methods synchronise themselves
 	atomic   map[string]bool // ... of a sync/atomic type: Load/Store/... are emitted as AARead/AAWrite
+	// deep fields (walk ... deep=<field>): the data structure REACHABLE from the field is guarded state too (a tree of
+	// nodes hanging off vm.root): an access through the field or through a local derived from it (current := m.root;
+	// child := current.children[k]; for _, p := range child.paths ...) is an access to the field's region
+	deep map[string]bool
 }
 
 type emitter struct {
@@ -41,6 +46,9 @@ type emitter struct {
 	deferred [][]string
 	explicit int // explicit (non-deferred) locks currently held
 	stack    []string
+	alias    map[string]string        // local variable -> deep field whose region it points into (sticky: never removed)
+	retAlias string                   // deep field a returned value points into
+	callRet  map[*ast.CallExpr]string // receiver-method call -> retAlias of the inlined callee
 }
 
 func (e *emitter) emit(a string) { e.acts = append(e.acts, a) }
@@ -50,11 +58,17 @@ func (e *emitter) emit(a string) { e.acts = append(e.acts, a) }
 type target struct {
 	dir, typ, file string
 	ctors          map[string]bool
+	deep           map[string]bool
+	// exportedOnly (walk ... entries=exported): the table has one entry per EXPORTED method; unexported helpers rely on
+	// the caller's lock and appear inlined in their callers.  A reference to such a helper from code that is not a
+	// method of the type (by name, anywhere in the package) gets an entry "external-call:<helper>" = [AOpaque].
+	exportedOnly bool
 }
 
 func loadWalker(repo string, tg target) (*walker, error) {
 	w := &walker{fset: token.NewFileSet(), methods: map[string]*ast.FuncDecl{}, isMap: map[string]bool{},
-		fieldID: map[string]int{}, written: map[string]bool{}, selfSync: map[string]bool{}, atomic: map[string]bool{}}
+		fieldID: map[string]int{}, written: map[string]bool{}, selfSync: map[string]bool{}, atomic: map[string]bool{}, deep: tg.deep}
+	var others []*ast.FuncDecl
 	dir := filepath.Join(repo, tg.dir)
 	ents, err := os.ReadDir(dir)
 	if err != nil {
@@ -100,15 +114,21 @@ func loadWalker(repo string, tg target) (*walker, error) {
 					}
 				}
 			case *ast.FuncDecl:
-				if x.Recv == nil || len(x.Recv.List) != 1 || x.Body == nil {
+				if x.Body == nil {
+					continue
+				}
+				if x.Recv == nil || len(x.Recv.List) != 1 {
+					others = append(others, x)
 					continue
 				}
 				star, ok := x.Recv.List[0].Type.(*ast.StarExpr)
 				if !ok {
+					others = append(others, x)
 					continue
 				}
 				id, ok := star.X.(*ast.Ident)
 				if !ok || id.Name != tg.typ {
+					others = append(others, x)
 					continue
 				}
 				w.methods[x.Name.Name] = x
@@ -122,6 +142,21 @@ func loadWalker(repo string, tg target) (*walker, error) {
 	}
 	if len(w.fields) == 0 {
 		return nil, fmt.Errorf("struct %s not found in %s/%s", tg.typ, tg.dir, tg.file)
+	}
+	if tg.exportedOnly {
+		seen := map[string]bool{}
+		for _, fd := range others {
+			ast.Inspect(fd, func(n ast.Node) bool {
+				if se, ok := n.(*ast.SelectorExpr); ok {
+					if _, isM := w.methods[se.Sel.Name]; isM && !ast.IsExported(se.Sel.Name) && !seen[se.Sel.Name] {
+						seen[se.Sel.Name] = true
+						w.extRefs = append(w.extRefs, se.Sel.Name)
+					}
+				}
+				return true
+			})
+		}
+		sort.Strings(w.extRefs)
 	}
 	return w, nil
 }
@@ -172,6 +207,103 @@ func (e *emitter) muOp(c *ast.CallExpr) (string, bool) {
 	return "AOpaque", true
 }
 
+// regionOf: the deep field whose region the access path x leads into, and whether the path dereferences
+// (selects / indexes / slices below the pointer): `current` alone is a pointer value in a local, `current.children`,
+// `current.children[k]`, `*current` touch the region
+func (e *emitter) regionOf(x ast.Expr) (string, bool) {
+	if len(e.w.deep) == 0 {
+		return "", false
+	}
+	depth := 0
+	for {
+		switch v := x.(type) {
+		case *ast.ParenExpr:
+			x = v.X
+		case *ast.StarExpr:
+			x = v.X
+			depth++
+		case *ast.UnaryExpr:
+			if v.Op != token.AND {
+				return "", false
+			}
+			x = v.X
+		case *ast.IndexExpr:
+			x = v.X
+			depth++
+		case *ast.SliceExpr:
+			x = v.X
+			depth++
+		case *ast.TypeAssertExpr:
+			x = v.X
+		case *ast.SelectorExpr:
+			if f, ok := e.vmField(v); ok {
+				if e.w.deep[f] {
+					return f, depth > 0
+				}
+				return "", false
+			}
+			x = v.X
+			depth++
+		case *ast.Ident:
+			if f, ok := e.alias[v.Name]; ok {
+				return f, depth > 0
+			}
+			return "", false
+		default:
+			return "", false
+		}
+	}
+}
+
+// pathIndexes: evaluate the index / bound expressions along an access path
+func (e *emitter) pathIndexes(x ast.Expr, nested bool) {
+	for {
+		switch v := x.(type) {
+		case *ast.ParenExpr:
+			x = v.X
+		case *ast.StarExpr:
+			x = v.X
+		case *ast.UnaryExpr:
+			x = v.X
+		case *ast.TypeAssertExpr:
+			x = v.X
+		case *ast.SelectorExpr:
+			x = v.X
+		case *ast.IndexExpr:
+			e.expr(v.Index, nested)
+			x = v.X
+		case *ast.SliceExpr:
+			e.expr(v.Low, nested)
+			e.expr(v.High, nested)
+			e.expr(v.Max, nested)
+			x = v.X
+		default:
+			return
+		}
+	}
+}
+
+// valueRegion: the deep field a VALUE points into (the result of a receiver-method call: what the callee returns)
+func (e *emitter) valueRegion(x ast.Expr) string {
+	if len(e.w.deep) == 0 {
+		return ""
+	}
+	if c, ok := x.(*ast.CallExpr); ok {
+		return e.callRet[c]
+	}
+	f, _ := e.regionOf(x)
+	return f
+}
+
+func (e *emitter) setAlias(l ast.Expr, f string) {
+	if id, ok := l.(*ast.Ident); ok && f != "" && id.Name != "_" {
+		if e.alias == nil {
+			e.alias = map[string]string{}
+		}
+		e.alias[id.Name] = f
+	}
+}
+
 func (e *emitter) read(f string) {
 	if e.w.selfSync[f] {
 		return
@@ -197,6 +329,11 @@ func (e *emitter) mentionsRecv(x ast.Node) bool {
 
 // expr walks an expression in evaluation order emitting reads; nested = inside branch/loop/closure
 func (e *emitter) expr(x ast.Expr, nested bool) {
+	if f, deref := e.regionOf(x); f != "" && deref {
+		e.pathIndexes(x, nested)
+		e.read(f)
+		return
+	}
 	switch v := x.(type) {
 	case nil:
 	case *ast.Ident, *ast.BasicLit:
@@ -280,15 +417,31 @@ func (e *emitter) call(c *ast.CallExpr, nested bool) {
 			return
 		}
 	}
+	if id, ok := c.Fun.(*ast.Ident); ok && id.Name == "delete" && len(c.Args) == 2 {
+		if f, deref := e.regionOf(c.Args[0]); f != "" && deref {
+			e.pathIndexes(c.Args[0], nested)
+			e.expr(c.Args[1], nested)
+			e.write(f)
+			return
+		}
+	}
 	// append(recv.field, ...) reads the field (the assignment around it writes it)
 	// a call of another method of the receiver: inline it
 	if se, ok := c.Fun.(*ast.SelectorExpr); ok {
 		if id, ok := se.X.(*ast.Ident); ok && id.Name == e.recv {
 			if callee, ok := e.w.methods[se.Sel.Name]; ok {
+				var roots []string
 				for _, a := range c.Args {
 					e.expr(a, nested)
+					roots = append(roots, e.valueRegion(a))
 				}
-				e.inline(se.Sel.Name, callee, nested)
+				ret := e.inline(se.Sel.Name, callee, nested, roots)
+				if ret != "" {
+					if e.callRet == nil {
+						e.callRet = map[*ast.CallExpr]string{}
+					}
+					e.callRet[c] = ret
+				}
 				return
 			}
 			if f, ok := e.vmField(se); ok {
@@ -357,27 +510,38 @@ func (e *emitter) call(c *ast.CallExpr, nested bool) {
 	}
 }
 
-func (e *emitter) inline(name string, callee *ast.FuncDecl, nested bool) {
+func (e *emitter) inline(name string, callee *ast.FuncDecl, nested bool, argRoots []string) string {
 	for _, s := range e.stack {
 		if s == name {
 			e.emit("AOpaque") // recursion
-			return
+			return ""
 		}
 	}
 	if len(e.stack) > 6 {
 		e.emit("AOpaque")
-		return
+		return ""
 	}
 	sub := &emitter{w: e.w, recv: recvName(callee), stack: append(append([]string{}, e.stack...), name)}
+	// parameters that receive a pointer into a deep region are aliases of it inside the callee
+	k := 0
+	for _, fl := range callee.Type.Params.List {
+		for _, nm := range fl.Names {
+			if k < len(argRoots) && argRoots[k] != "" {
+				sub.setAlias(nm, argRoots[k])
+			}
+			k++
+		}
+	}
 	sub.block(callee.Body.List, false)
 	sub.finish()
 	if nested && hasLockOp(sub.acts) && !balanced(sub.acts) {
 		// lock operations inside a branch/loop of the caller are only understood when the callee is a
 		// complete balanced region (then a path runs the whole region or none of it: Lock.sub_skip_region)
 		e.emit("AOpaque")
-		return
+		return ""
 	}
 	e.acts = append(e.acts, sub.acts...)
+	return sub.retAlias
 }
 
 func hasLockOp(acts []string) bool {
@@ -425,6 +589,11 @@ func (e *emitter) finish() {
 }
 
 func (e *emitter) assignTarget(lhs ast.Expr, nested bool) {
+	if f, deref := e.regionOf(lhs); f != "" && deref {
+		e.pathIndexes(lhs, nested)
+		e.write(f)
+		return
+	}
 	switch v := lhs.(type) {
 	case *ast.IndexExpr:
 		if f, ok := e.vmField(v.X); ok {
@@ -496,8 +665,8 @@ func (e *emitter) stmt(s ast.Stmt, nested bool) {
 					for _, a := range v.Call.Args {
 						e.expr(a, nested)
 					}
-					tmp := &emitter{w: e.w, recv: e.recv, stack: e.stack}
-					tmp.inline(se.Sel.Name, callee, true)
+					tmp := &emitter{w: e.w, recv: e.recv, stack: e.stack, alias: e.alias}
+					tmp.inline(se.Sel.Name, callee, true, nil)
 					e.deferred = append(e.deferred, tmp.acts)
 					return
 				}
@@ -517,6 +686,13 @@ func (e *emitter) stmt(s ast.Stmt, nested bool) {
 		for _, l := range v.Lhs {
 			e.assignTarget(l, nested)
 		}
+		for i, l := range v.Lhs {
+			if len(v.Rhs) == len(v.Lhs) {
+				e.setAlias(l, e.valueRegion(v.Rhs[i]))
+			} else if i == 0 && len(v.Rhs) == 1 {
+				e.setAlias(l, e.valueRegion(v.Rhs[0])) // v, ok := m[k]
+			}
+		}
 	case *ast.IncDecStmt:
 		if f, ok := e.vmField(v.X); ok {
 			e.read(f)
@@ -527,6 +703,9 @@ func (e *emitter) stmt(s ast.Stmt, nested bool) {
 	case *ast.ReturnStmt:
 		for _, r := range v.Results {
 			e.expr(r, nested)
+			if f := e.valueRegion(r); f != "" {
+				e.retAlias = f
+			}
 		}
 		if e.explicit > 0 {
 			e.emit("AOpaque") // return while an explicitly taken lock has no deferred release
@@ -548,6 +727,10 @@ func (e *emitter) stmt(s ast.Stmt, nested bool) {
 			e.read(f)
 		} else {
 			e.expr(v.X, true)
+		}
+		if f := e.valueRegion(v.X); f != "" {
+			e.setAlias(v.Key, f)
+			e.setAlias(v.Value, f)
 		}
 		e.block(v.Body.List, true)
 	case *ast.SwitchStmt:
@@ -601,7 +784,13 @@ func walk(repo string, tg target) (string, error) {
 		acts []string
 	}
 	var ents []entry
+	for _, name := range w.extRefs {
+		ents = append(ents, entry{"external-call:" + name, []string{"AOpaque"}})
+	}
 	for _, name := range w.inVMGo {
+		if tg.exportedOnly && !ast.IsExported(name) {
+			continue
+		}
 		fd := w.methods[name]
 		e := &emitter{w: w, recv: recvName(fd), stack: []string{name}}
 		e.block(fd.Body.List, false)
